@@ -377,7 +377,7 @@ def _export_cases(draw, tier):
     shapes = []
     for _ in range(n):
         d = _surface(draw, False)
-        sc = draw(st.sampled_from([0, 0, 0, -10, -14]))          # small parts in large units: exact power-of-two scaling
+        sc = draw(st.sampled_from([0, 0, 0, -10, -14, -24]))          # small parts in large units: exact power-of-two scaling
         if sc:
             d["P"] = [[c * 2.0 ** sc for c in q] for q in d["P"]]
             d["scale_exp"] = sc
